@@ -170,6 +170,7 @@ func run(dir, simrtSrc, sitesOut string, access bool, accessTypes map[string]boo
 	if sitesOut == "" {
 		sitesOut = filepath.Join(dir, "simrt", "sites.json")
 	}
+	tab.UnmodelledSync = Warnings
 	js, err := json.MarshalIndent(tab, "", " ")
 	if err != nil {
 		return err
@@ -240,6 +241,7 @@ type table struct {
 	SkippedAccess  int            `json:"skipped_access"`
 	SkippedReasons map[string]int `json:"skipped_access_reasons"`
 	FilteredAccess int            `json:"filtered_access"` // library fields whose owning type is not in -access-types
+	UnmodelledSync []string       `json:"unmodelled_nonblocking_sync"`
 }
 
 func newTable() *table {
